@@ -12,6 +12,8 @@ package serializer
 
 /*@
 global itemCalls Int        -- how often ReadSequenceOfObjects invoked its item deserializer (ghost)
+global cbfail Bool        -- the item deserializer or the element validator has reported an error in the running call (ghost)
+global boundsok Bool      -- the bounds check of the running call accepted the length (ghost)
 global lastitem Int       -- bytes consumed by the item deserializer call last made (ghost)
 global lenok Bool           -- ReadSequenceOfObjects has read a length field (ghost)
 global bchecked Bool        -- ReadSequenceOfObjects has checked that length against the array bounds (ghost)
@@ -230,19 +232,28 @@ func Deserializer.ReadSequenceOfObjects
     -- the validator is shown exactly the bytes of the element just read - not the rest of the input behind it (a
     -- duplicate / order check over "element plus whatever follows" accepts repeated elements)
     requires len(next) == lastitem && base(next) == base(d.src)
-  modifies d.offset, d.err, ghost(itemCalls), ghost(lenok), ghost(bchecked), ghost(lastitem)
+  modifies d.offset, d.err, ghost(itemCalls), ghost(lenok), ghost(bchecked), ghost(lastitem), ghost(cbfail), ghost(boundsok)
   ghost after call Deserializer.ReadSequenceOfObjects#itemDeserializer: lastitem = r0
   ghost at entry: lenok = false
+  ghost at entry: cbfail = false
+  ghost at entry: boundsok = true
+  ghost after call Deserializer.ReadSequenceOfObjects#itemDeserializer: cbfail = cbfail || r1 != nil
+  ghost after call Deserializer.ReadSequenceOfObjects#arrayElementValidator: cbfail = cbfail || result != nil
+  ghost after call ArrayRules.CheckBounds: boundsok = (result == nil)
   ghost at entry: bchecked = false
   ghost after call Deserializer.readSliceLength: lenok = (r1 == nil)
   ghost after call ArrayRules.CheckBounds: bchecked = true
-  loop 1 invariant inv(d) && d.offset >= old(d.offset) && d.src == old(d.src) && (bitand(deSeriMode, DeSeriModePerformValidation) > 0 ==> bchecked)
+  loop 1 invariant inv(d) && d.offset >= old(d.offset) && d.src == old(d.src) && (bitand(deSeriMode, DeSeriModePerformValidation) > 0 ==> bchecked) && (!cbfail ==> d.err == nil)
   ensures r0 == d && inv(d) && d.src == old(d.src) && d.offset >= old(d.offset)
   ensures old(d.err) != nil ==> itemCalls == old(itemCalls)
   -- validating mode: every length that was read - also zero - has been checked against the bounds before the function returns
   ensures bitand(deSeriMode, DeSeriModePerformValidation) > 0 && lenok ==> bchecked
   -- a length field outside the validated bounds never drives the item loop
   ensures bitand(deSeriMode, DeSeriModePerformValidation) > 0 && ((arrayRules.Min != 0 && lenprefix(elems(d.src), off(d.src) + old(d.offset), lenType) < arrayRules.Min) || (arrayRules.Max != 0 && lenprefix(elems(d.src), off(d.src) + old(d.offset), lenType) > arrayRules.Max)) ==> itemCalls == old(itemCalls)
+  -- no failure of its own in the item loop: once the length has been read and accepted, the call fails only with what the
+  -- item deserializer or the element validator reported - every announced item is offered to the deserializer, also when no
+  -- input is left (items may be zero bytes long)
+  ensures old(d.err) == nil && lenok && boundsok && !cbfail ==> d.err == nil
 
 func ArrayRules.CheckBounds
   requires ar != nil
